@@ -76,7 +76,12 @@ theorem emitSc_load (sk : Bool) (col : Nat) (s : Sc) (t tail : List Char) (hok :
       simp only [Bool.false_eq_true, if_false] at h
       unfold emitScalar at h
       split at h
-      · cases h
+      · split at h
+        · rename_i hd
+          injection h with h; subst h
+          simp only [Bool.and_eq_true, decide_eq_true_eq] at hd
+          exact text_roundtrip_double false s.text tail hd.1 htp
+        · cases h
       · rename_i hml
         split at h
         · injection h with h; subst h
@@ -183,7 +188,13 @@ theorem emitSc_NoNL (sk : Bool) (col : Nat) (s : Sc) (t : List Char) (h : emitSc
       simp only [Bool.false_eq_true, if_false] at h
       unfold emitScalar at h
       split at h
-      · cases h
+      · split at h
+        · rename_i hd
+          injection h with h; subst h
+          simp only [Bool.and_eq_true, decide_eq_true_eq] at hd
+          simp only [textOf, hd.1]
+          exact NoNL_cons (by decide) (NoNL_append (writeDoubleBody_NoNL _ s.text) (NoNL_cons (by decide) NoNL_nil))
+        · cases h
       · rename_i hml
         split at h
         · injection h with h; subst h
